@@ -1,40 +1,70 @@
-(* HISTORICAL witness (DESIGN.md A.6, property C12).  Before the repair
-   `fix: LinearScale.copy() copies the domain and range lists` (/repo 0ea8365)
-   copy() passed the domain and range list OBJECTS to the new scale
-   (scale.py:374-377 of the snapshot), and nice() rewrites the domain list in
-   place.  This file models that old copy() on the heap machine of
-   Scale/ScaleState.v and proves, by computation, that the property failed:
-   after  s.domain([0.3,9.7]).range([0,100]); c = s.copy(); c.nice()
-   the ORIGINAL reports the domain [0,10] but still maps 0 to -3.19...
-   The model tied to the code is Scale/ScaleState.v (the repaired copy); this
-   file is only a kernel-checked record of the defect. *)
+(* HISTORICAL witnesses (property C12).  Two defects of LinearScale's handling
+   of its list objects have been repaired in /repo:
+   (1) 0ea8365 `copy() copies the domain and range lists`: before it, copy()
+       passed the two list OBJECTS to the new scale (DESIGN.md A.6);
+   (2) 41d590d `nice() builds a new domain list`: before it, nice() rewrote
+       the scale's domain list IN PLACE (d3_scale_nice assigns domain[i0],
+       domain[i1]); the getter domain() returns that very list and range(x)
+       stores whatever list it is given, so a list could be shared (audit B6).
+   This file models the OLD behaviour on the heap machine of
+   Scale/ScaleState.v and proves, by computation, that the statement of
+   C12_ss_endpoints failed for it:
+   - ss_refuted_old       : s.domain([.3,9.7]).range([0,100]); c = s.copy(); c.nice()
+                            (old copy + old nice): the ORIGINAL reports the
+                            domain [0,10] but still maps 0 to -3.19...
+   - ss_refuted_old_alias : ...; c = s.copy(); c.range(s.domain()); s.nice()
+                            (repaired copy, old nice): the COPY reports the
+                            range [0,10] but still maps onto [0.3,9.7].
+   The model tied to the code is Scale/ScaleState.v (nothing writes into an
+   existing cell); this file is only a kernel-checked record of the defects. *)
 From Coq Require Import ZArith QArith List Bool.
 From Labella Require Import Scale.Linear Scale.Ticks Scale.Nice Scale.ScaleState.
 Import ListNotations.
 Open Scope Q_scope.
 
-(* the old copy(): a new scale object holding the SAME two cells *)
-Definition step_old (st : state) (o : op) : state :=
-  match o with
-  | OCopy i =>
-      match nth_error (scales st) i with
-      | Some s =>
-          let s0 := mkScale (dom s) (rng s) (clamp s) (mkCache 0 0 0 0 false) in
-          mkState (dheap st) (rheap st) (scales st ++ [rescale (dheap st) (rheap st) s0])
+(* old nice(): overwrite the domain cell in place, then rescale *)
+Definition nice_in_place (st : state) (i : nat) (m : Z) : state :=
+  match nth_error (scales st) i with
+  | Some s =>
+      match nth_error (heap st) (dom s) with
+      | Some d =>
+          let h := upd (heap st) (dom s) (nice m d) in
+          mkState h (upd (scales st) i (rescale h s))
       | None => st
       end
+  | None => st
+  end.
+
+(* old copy(): a new scale object holding the SAME two cells *)
+Definition copy_aliasing (st : state) (i : nat) : state :=
+  match nth_error (scales st) i with
+  | Some s =>
+      mkState (heap st) (scales st ++ [rescale (heap st) (mkScale (dom s) (rng s) (clamp s) no_cache)])
+  | None => st
+  end.
+
+(* the machine before 41d590d (old nice); with alias_copy also before 0ea8365 *)
+Definition step_old (alias_copy : bool) (st : state) (o : op) : state :=
+  match o with
+  | ONice i m => nice_in_place st i m
+  | OCopy i => if alias_copy then copy_aliasing st i else step st o
   | _ => step st o
   end.
 
-Definition run_old (ops : list op) (st : state) : state := fold_left step_old ops st.
+Definition run_old (alias_copy : bool) (ops : list op) (st : state) : state :=
+  fold_left (step_old alias_copy) ops st.
 
 Definition A6 : list op :=
-  [ONew; OAllocR (0, 100); ODomain 0 (3#10, 97#10); ORange 0 1; OCopy 0; ONice 1 10].
+  [ONew; OAlloc (0, 100); ODomain 0 (3#10, 97#10); ORange 0 2; OCopy 0; ONice 1 10].
 
-(* the statement of C12_ss_endpoints fails for the old machine *)
+Definition B6 : list op :=
+  [ONew; OAlloc (0, 100); ODomain 0 (3#10, 97#10); ORange 0 2; OCopy 0;
+   ORangeOfDomain 1 0; ONice 0 10].
+
+(* the statement of C12_ss_endpoints fails for the snapshot's machine *)
 Theorem ss_refuted_old :
   exists ops i a b r0 r1 v,
-    let st := run_old ops init in
+    let st := run_old true ops init in
     observe st i QDomain = APair (a, b) /\ observe st i QRange = APair (r0, r1) /\
     ~ a == b /\ observe st i (QCall a) = ANum v /\ ~ v == r0.
 Proof.
@@ -43,16 +73,35 @@ Proof.
 Qed.
 Print Assumptions ss_refuted_old.
 
-(* the very same history on the repaired machine is consistent *)
+(* ... and still failed after copy() was repaired, through a shared list:
+   the copy reports domain [0.3,9.7] and range [0,10] but maps 0.3 to 0.3 *)
+Theorem ss_refuted_old_alias :
+  exists ops i a b r0 r1 v,
+    let st := run_old false ops init in
+    observe st i QDomain = APair (a, b) /\ observe st i QRange = APair (r0, r1) /\
+    ~ a == b /\ observe st i (QCall a) = ANum v /\ ~ v == r0.
+Proof.
+  exists B6, 1%nat, (3#10), (97#10), 0, 10. eexists.
+  vm_compute. repeat split; try discriminate.
+Qed.
+Print Assumptions ss_refuted_old_alias.
+
+(* the very same histories on the repaired machine are consistent *)
 Example A6_repaired :
   let st := run A6 init in
   observe st 0 QDomain = APair (3#10, 97#10) /\ observe st 1 QDomain = APair (0, 10).
 Proof. vm_compute. split; reflexivity. Qed.
 
-(* ... and the original of the old machine is off by the amount A.6 reports:
+Example B6_repaired :
+  let st := run B6 init in
+  observe st 0 QDomain = APair (0, 10) /\ observe st 1 QRange = APair (3#10, 97#10) /\
+  exists v, observe st 1 (QCall (3#10)) = ANum v /\ Qeq_bool v (3#10) = true.
+Proof. vm_compute. repeat split. eexists. split; reflexivity. Qed.
+
+(* the original of the snapshot's machine is off by the amount A.6 reports:
    s(0) = -300/94 = -3.19..., s(10) = 9700/94 = 103.19... *)
 Example A6_values :
-  let st := run_old A6 init in
+  let st := run_old true A6 init in
   exists v0 v1, observe st 0 (QCall 0) = ANum v0 /\ observe st 0 (QCall 10) = ANum v1 /\
                 Qeq_bool v0 (-(300#94)) = true /\ Qeq_bool v1 (9700#94) = true.
 Proof. vm_compute. eexists. eexists. repeat split. Qed.
